@@ -5,8 +5,8 @@ import (
 	"math/rand"
 	"net"
 	"sort"
-	"sync"
 	"strings"
+	"sync"
 	"sync/atomic"
 	"time"
 
@@ -352,9 +352,22 @@ func c16direct(c *runner.Ctx, i int) {
 	var hist []string
 	changed := false
 	nsteps := 10 + r.Intn(7)
-	refresh := func() error {
+	refreshOnce := func() error {
 		var err error
 		c.Guard("refreshRing", func() { err = gocql.VerifRefreshRing(sess) })
+		return err
+	}
+	// A membership change reaches the driver with the next refresh that succeeds; while the
+	// control connection is being re-established a refresh fails and tells the driver nothing.
+	refresh := func() error {
+		var err error
+		for try := 0; try < 12; try++ {
+			if err = refreshOnce(); err == nil {
+				return nil
+			}
+			c.Add("refresh_retried", 1)
+			c16settle(sess, m)
+		}
 		return err
 	}
 	qn := 0
@@ -384,7 +397,10 @@ func c16direct(c *runner.Ctx, i int) {
 			desc = "add " + ip.String()
 			c.Add("step_add", 1)
 			changed = true
-			refresh()
+			if err := refresh(); err != nil {
+				c.Inconclusive("c16-refresh-unavailable", clipS(err.Error()))
+				return
+			}
 		case step == 1 && len(others) > 1:
 			n := others[r.Intn(len(others))]
 			cl.RemoveNode(n)
@@ -393,7 +409,10 @@ func c16direct(c *runner.Ctx, i int) {
 			desc = "remove " + n.IP.String()
 			c.Add("step_remove", 1)
 			changed = true
-			refresh()
+			if err := refresh(); err != nil {
+				c.Inconclusive("c16-refresh-unavailable", clipS(err.Error()))
+				return
+			}
 		case step == 2 && len(others) > 0:
 			n := others[r.Intn(len(others))]
 			if m.down[n] {
@@ -407,7 +426,10 @@ func c16direct(c *runner.Ctx, i int) {
 			changed = true
 			// the cluster announces the move only after the node is back; by then the driver has noticed the loss
 			c16settle(sess, m)
-			refresh()
+			if err := refresh(); err != nil {
+				c.Inconclusive("c16-refresh-unavailable", clipS(err.Error()))
+				return
+			}
 		case step == 3 && len(others) > 0:
 			n := others[r.Intn(len(others))]
 			if m.down[n] {
@@ -419,7 +441,10 @@ func c16direct(c *runner.Ctx, i int) {
 			c.Add("step_replace_id", 1)
 			changed = true
 			c16settle(sess, m)
-			refresh()
+			if err := refresh(); err != nil {
+				c.Inconclusive("c16-refresh-unavailable", clipS(err.Error()))
+				return
+			}
 		case step == 4:
 			var extra []fakenode.PeerRow
 			for k := 0; k <= r.Intn(2); k++ {
@@ -445,7 +470,10 @@ func c16direct(c *runner.Ctx, i int) {
 			m.mu.Unlock()
 			desc = fmt.Sprintf("%d invalid peer rows", len(extra))
 			c.Add("step_invalid_rows", 1)
-			refresh()
+			if err := refresh(); err != nil {
+				c.Inconclusive("c16-refresh-unavailable", clipS(err.Error()))
+				return
+			}
 		case step == 5 && len(others) > 0:
 			dn := others[r.Intn(len(others))]
 			m.mu.Lock()
@@ -538,7 +566,7 @@ func c16direct(c *runner.Ctx, i int) {
 			gocql.VerifHandleNodeEvents(sess, []gocql.VerifNodeEvent{ev, {Topology: true, Change: "NEW_NODE", Host: ip, Port: 9042}})
 		case step == 9:
 			atomic.StoreInt32(&cl.FailPeers, 1)
-			err := refresh()
+			err := refreshOnce()
 			desc = fmt.Sprintf("failing peers query (refresh returned %v)", err != nil)
 			c.Add("step_refresh_failure", 1)
 			atomic.StoreInt32(&cl.FailPeers, 0)
